@@ -168,13 +168,18 @@ fn check_abs(w: &mut WorkerCtx, c: &AbsCase, mem: &Memfs, stdfs_ok: bool) {
 }
 
 pub fn worker_abs(w: &mut WorkerCtx) {
-    // args: <home-kind: in|out|unset> <v-kind: plain|sep|unset>
+    // args: <home-kind: in|out|root|root2|trail|unset> <v-kind: plain|sep|unset>
     let sb = Sandbox::new(&format!("c05a.{}.{}{}", w.shard, w.arg(0), w.arg(1)));
     let sbr = sb.root.clone();
     std::fs::create_dir_all(format!("{}/a/b", sbr)).expect("mkdir");
     let home: Option<String> = match w.arg(0) {
         "in" => Some(format!("{}/a", sbr)),
         "out" => Some(s("/h/x")),
+        // the root directory as HOME (service accounts, minimal containers), also spelled with two separators,
+        // and a value with a trailing separator
+        "root" => Some(s("/")),
+        "root2" => Some(s("//")),
+        "trail" => Some(s("/h/x/")),
         _ => None,
     };
     let v: Option<String> = match w.arg(1) {
@@ -644,8 +649,8 @@ pub fn run(ctx: &Ctx) -> i32 {
     let mut g = Gathered::default();
     // part (i): one worker group per (HOME, V) setting; environment fixed per process
     let combos: Vec<(&str, &str)> = match ctx.tier {
-        Tier::Quick => vec![("in", "plain"), ("out", "sep")],
-        Tier::Thorough => vec![("in", "plain"), ("out", "sep"), ("in", "sep"), ("unset", "unset"), ("out", "plain")],
+        Tier::Quick => vec![("in", "plain"), ("out", "sep"), ("root", "plain")],
+        Tier::Thorough => vec![("in", "plain"), ("out", "sep"), ("in", "sep"), ("unset", "unset"), ("out", "plain"), ("root", "plain"), ("root2", "sep"), ("trail", "plain")],
     };
     let shards = (ctx.threads as u64 / combos.len() as u64).max(1);
     std::thread::scope(|sc| {
